@@ -240,3 +240,20 @@ HOOK_COMMITS = ["8bc8c25"]
 _PENDING = "check not built yet in this round (see DESIGN.md section 8); no technique switch is implied"
 NOT_APPLICABLE = [{"property_id": f"C{i:02d}", "reason": _PENDING} for i in range(1, 18)]
 
+
+# which sections of tools/translate.py each property's model/theorems depend on
+ALL_SECTIONS = ["rolling", "chunker", "header", "proto", "levels", "versions", "cloneflags", "clonesteps", "compresssteps", "pipeline"]
+_CHUNK = ["rolling", "chunker"]
+_ARCH = ["header", "proto", "levels"]
+SECTIONS_OF = {
+    "C01": _CHUNK + _ARCH + ["versions", "pipeline", "compresssteps"],
+    "C02": [], "C03": [], "C13": [],
+    "C05": ["clonesteps"], "C06": ["clonesteps"],
+    "C04": _ARCH, "C07": [], "C08": [],
+    "C09": _CHUNK, "C10": _CHUNK,
+    "C11": _CHUNK + _ARCH + ["versions", "compresssteps"],
+    "C12": _CHUNK + _ARCH + ["versions", "pipeline", "compresssteps"],
+    "C14": ["cloneflags", "clonesteps", "compresssteps"],
+    "C16": ["cloneflags", "clonesteps", "compresssteps"],
+    "C15": _CHUNK + _ARCH, "C17": _ARCH,
+}
